@@ -426,6 +426,32 @@ def posFromTop (stack : List Nat) (idx : Nat) : Option Nat :=
   | some i => some i
   | none => none
 
+/-- "the first viable parent is a special case, where we continue traversal on the `p` PartialPath":
+the element written back at the cursor, the remaining parents, and `used_p` -/
+def selectParent (p : PP) (path : PathB) (parents : List (Nat × Bool)) (fp : Option Nat) :
+    PP × List (Nat × Bool) × Bool :=
+  match fp with
+  | some i =>
+    match parents[i]? with
+    | some (pi, pc) => ({ p with path := path, idx := pi, child := pc }, parents.drop (i + 1), true)
+    | none => ({ p with path := path }, [], false)
+  | none => ({ p with path := path }, [], false)
+
+/-- `if entry.on_stack > 0 || !remaining_parents.is_empty() { … }`: fork the search to the remaining
+parents and to the stack position of the entry -/
+def forks (tc : TC) (seen : BitSet) (path : PathB) (idx onStack : Nat) (remaining : List (Nat × Bool))
+    (pps : Array PP) : Except Err (Array PP) :=
+  if onStack > 0 || !remaining.isEmpty then
+    match pushRemaining seen path remaining pps with
+    | .error e => .error e
+    | .ok pps =>
+      if onStack > 0 then
+        match posFromTop tc.stack idx with
+        | none => .error (.Panic "(internal error) node not on stack")
+        | some sp => .ok (pps.push { path := path.push false, stackPos := Int.ofNat sp, idx := 0, child := false })
+      else .ok pps
+  else .ok pps
+
 /-- the `loop` of `find_path`; `some path` = `break`, `none` = `return None` -/
 def fpLoop (tc : TC) (limit : Nat) : Nat → Array PP → Nat → Nat → BitSet → Except Err (Option PathB)
   | 0, _, _, _, _ => .error (.Panic "fuel")
@@ -437,55 +463,34 @@ def fpLoop (tc : TC) (limit : Nat) : Nat → Array PP → Nat → Nat → BitSet
       | none => .error (.Panic "index out of bounds")
       | some p =>
         if p.path.len > curLen then
-          let (c, l) := wrap pps.size (cursor + 1) curLen
-          fpLoop tc limit fuel pps c l seen
+          fpLoop tc limit fuel pps (wrap pps.size (cursor + 1) curLen).1 (wrap pps.size (cursor + 1) curLen).2 seen
         else if p.stackPos ≥ 0 then
           if p.stackPos == 0 then .ok (some p.path)
           else
-            let pps := pps.set! cursor { p with path := p.path.push true, stackPos := p.stackPos - 1 }
-            let (c, l) := wrap pps.size (cursor + 1) curLen
-            fpLoop tc limit fuel pps c l seen
+            fpLoop tc limit fuel (pps.set! cursor { p with path := p.path.push true, stackPos := p.stackPos - 1 })
+              (wrap pps.size (cursor + 1) curLen).1 (wrap pps.size (cursor + 1) curLen).2 seen
         else
           match seen.visit p.idx with
           | .error e => .error e
           | .ok (true, seen) =>
-            let pps := swapRemove pps cursor
-            let (c, l) := wrap pps.size cursor curLen
-            fpLoop tc limit fuel pps c l seen
+            fpLoop tc limit fuel (swapRemove pps cursor) (wrap (swapRemove pps cursor).size cursor curLen).1
+              (wrap (swapRemove pps cursor).size cursor curLen).2 seen
           | .ok (false, seen) =>
-            let path := p.path.push p.child
             match tc.entries[p.idx]? with
             | none => .error (.Panic "index out of bounds")
             | some entry =>
-              let idx := p.idx
               match firstUnseen seen entry.parents 0 with
               | .error e => .error e
               | .ok fp =>
-                let (p', remaining, usedP) : PP × List (Nat × Bool) × Bool :=
-                  match fp with
-                  | some i =>
-                    match entry.parents[i]? with
-                    | some (pi, pc) => ({ p with path := path, idx := pi, child := pc }, entry.parents.drop (i + 1), true)
-                    | none => ({ p with path := path }, [], false)
-                  | none => ({ p with path := path }, [], false)
-                let pps := pps.set! cursor p'
-                let r : Except Err (Array PP) :=
-                  if entry.onStack > 0 || !remaining.isEmpty then
-                    match pushRemaining seen path remaining pps with
-                    | .error e => .error e
-                    | .ok pps =>
-                      if entry.onStack > 0 then
-                        match posFromTop tc.stack idx with
-                        | none => .error (.Panic "(internal error) node not on stack")
-                        | some sp => .ok (pps.push { path := path.push false, stackPos := Int.ofNat sp, idx := 0, child := false })
-                      else .ok pps
-                  else .ok pps
-                match r with
+                let sel := selectParent p (p.path.push p.child) entry.parents fp
+                match forks tc seen (p.path.push p.child) p.idx entry.onStack sel.2.1 (pps.set! cursor sel.1) with
                 | .error e => .error e
-                | .ok pps =>
-                  let (pps, cursor) := if usedP then (pps, cursor + 1) else (swapRemove pps cursor, cursor)
-                  let (c, l) := wrap pps.size cursor curLen
-                  fpLoop tc limit fuel pps c l seen
+                | .ok pps2 =>
+                  if sel.2.2 then
+                    fpLoop tc limit fuel pps2 (wrap pps2.size (cursor + 1) curLen).1 (wrap pps2.size (cursor + 1) curLen).2 seen
+                  else
+                    fpLoop tc limit fuel (swapRemove pps2 cursor) (wrap (swapRemove pps2 cursor).size cursor curLen).1
+                      (wrap (swapRemove pps2 cursor).size cursor curLen).2 seen
 
 /-- iterations: per pass over the vector every element is stepped or removed once, every element is
 created by a first visit of an entry (at most `MAX_PARENTS + 1` per entry); passes ≤ limit + 2 -/
